@@ -207,7 +207,11 @@ func (f *File) Coq() string {
 }
 
 func (f *PFile) Coq() string {
-	return fmt.Sprintf("(mkPfile %s %s %s %s)", strList(f.Dir), S(f.Base), strList(f.Msgs), strList(f.Enums))
+	msgs := f.Msgs
+	if f.Holder != "" {
+		msgs = append(append([]string{}, msgs...), f.Holder)
+	}
+	return fmt.Sprintf("(mkPfile %s %s %s %s)", strList(f.Dir), S(f.Base), strList(msgs), strList(f.Enums))
 }
 
 func (b *Bundle) Coq() string {
